@@ -5,7 +5,7 @@ import spfgen as G
 ID = 'C11'
 COQ_TARGETS = ['Props/Properties_C11.vo']
 PROPS_FILES = ['Props/Properties_C11.v']
-THEOREMS = []
+THEOREMS = ['C11_check_host', 'C11_check_host_c', 'C11_limit_is_rfc', 'C11_bad_token_clean', 'C11_exp_text_clean', 'C11_received_spf_clean']
 ENGINES = [dict(name='spf', c_sources=['spf_h.c'], extract='Extract/Extract_spf.v', driver='spf_driver.ml',
                 glue=('glue.ml', 'glue_z.ml'), accepts=lambda c: c.startswith('c1 '))]
 RULE = 'tbd'
